@@ -132,3 +132,314 @@ Print Assumptions c11_observers.
 Print Assumptions c11_slots_bijective.
 Print Assumptions c11_insert_keeps_slots.
 Print Assumptions c11_nonvacuous.
+
+(* ====================================================================================================
+   The STATE MODEL on top of the container (appended; everything above is the container part).
+
+   Model/StateModel.v     StateFeature, CustomFeatureFormat, StateModel::{new, extend, initial_state, get_*, set_*,
+                          add_*}, search_app_ops::collect_features, SearchApp::build_search_instance (state part),
+                          written over the container model CM exactly as the code is written over the container
+   Model/StateModelSpec.v the specification over the declaration lists (association lists, no container):
+                          names = every name declared in configuration, by the traversal model, by the access
+                          model, once, in order of first declaration; slot = position; feature = last definition
+                          in the order configuration < traversal model < access model < query override
+   Quantification: every configured list with distinct names (any container state representing it), every list
+   of traversal-model and access-model features (names may repeat, within one model and across), every query
+   override set (a JSON object: distinct names), any number of features, every feature kind / unit / format,
+   every state vector, every value; arithmetic in exact rationals (QN). *)
+From Coq Require Import String QArith Qabs.
+From RC Require Import Base.Num Base.Res Model.Units Model.UnitsRun Model.StateModel Model.StateModelSpec
+     Proofs.StateModelBuild Proofs.StateModel Proofs.StateModelOps.
+Import SM Units.
+Local Open Scope nat_scope.
+
+Section C11State.
+  Variable N : Num.
+  Notation entries := (list (string * feature N)).
+  Implicit Types (cfg sm : smodel N) (tm am : entries) (user : user_q N).
+
+  (* the configured model: StateModel::new on distinct names represents the configured list *)
+  Theorem c11_configured_model : forall l : entries, NoDup (map fst l) -> SAbs (new l) l.
+  Proof. exact (abs_new String.eqb String.eqb_spec). Qed.
+
+  (* REFINEMENT: collect_features + extend, as coded over the container, give the same verdict as the
+     specification and, on success, a container that represents exactly the specified list.
+     (With invalid overrides of both kinds in one query the code reports whichever its HashMap hands out
+     first: both are errors, the class may differ - [mixed_invalid].) *)
+  Theorem c11_build_refines : forall cfg (s0 : entries) tm am user,
+      SAbs cfg s0 -> NoDup (map fst (user_entries user)) ->
+      match build_search_instance cfg tm am user, SMS.build s0 tm am user with
+      | Ok sm, Ok s => SAbs sm s
+      | Err c, Err c' => c = c' \/ mixed_invalid tm am (user_entries user) = true
+      | _, _ => False
+      end.
+  Proof. exact build_refines. Qed.
+
+  (* every feature occupies exactly one slot; the slots are 0..n-1, none shared, none skipped; the slot of a
+     name is the position of its first declaration; configured features keep the slot they had *)
+  Theorem slots_bijective : forall cfg (s0 : entries) tm am user sm,
+      SAbs cfg s0 -> NoDup (map fst (user_entries user)) ->
+      build_search_instance cfg tm am user = Ok sm ->
+      (forall k, get_index sm k = SMS.position (SMS.final_names s0 tm am) k)
+      /\ len sm = List.length (SMS.final_names s0 tm am)
+      /\ NoDup (SMS.final_names s0 tm am)
+      /\ (forall k i, get_index sm k = Some i -> i < len sm)
+      /\ (forall k1 k2 i, get_index sm k1 = Some i -> get_index sm k2 = Some i -> k1 = k2)
+      /\ (forall i, i < len sm -> exists k, get_index sm k = Some i)
+      /\ (forall k, get_index sm k <> None <-> In k (map fst s0) \/ In k (map fst tm) \/ In k (map fst am))
+      /\ (forall k i, get_index cfg k = Some i -> get_index sm k = Some i).
+  Proof. exact (slots_bijective_lemma N). Qed.
+
+  (* the initial state has exactly n entries; the entry at a name's slot is the initial value of the LAST
+     definition of that name (query override, else last model definition, else configuration), encoded by its
+     format *)
+  Theorem initial_state_length_and_values : forall cfg (s0 : entries) tm am user sm,
+      SAbs cfg s0 -> NoDup (map fst (user_entries user)) ->
+      build_search_instance cfg tm am user = Ok sm ->
+      exists st, initial_state N sm = Ok st
+        /\ List.length st = len sm
+        /\ (forall k i, get_index sm k = Some i ->
+              exists f, SMS.final_feature s0 tm am (user_entries user) k = Some f
+                        /\ nth_error st i = Some (SMS.initial_value N f)).
+  Proof. exact (initial_state_lemma N). Qed.
+
+  Theorem override_keeps_slot : forall cfg (s0 : entries) tm am (u : entries) sm sm0,
+      SAbs cfg s0 -> NoDup (map fst u) ->
+      build_search_instance cfg tm am (USome u) = Ok sm ->
+      build_search_instance cfg tm am UNone = Ok sm0 ->
+      len sm = len sm0 /\ forall k, get_index sm k = get_index sm0 k.
+  Proof. exact (override_keeps_slot_lemma N). Qed.
+
+  (* set_* / add_* / set_custom_* change the slot of their name and nothing else, and every other name reads
+     as before *)
+  Theorem set_touches_own_slot :
+      (forall U (unit_of : feature N -> res U) conv sm st name x u st',
+         set_with N unit_of conv sm st name x u = Ok st' ->
+         exists i, get_index sm name = Some i /\ List.length st' = List.length st
+                   /\ forall j, j <> i -> nth_error st' j = nth_error st j)
+      /\ (forall U (unit_of : feature N -> res U) conv sm st name x u st',
+         add_with N unit_of conv sm st name x u = Ok st' ->
+         exists i, get_index sm name = Some i /\ List.length st' = List.length st
+                   /\ forall j, j <> i -> nth_error st' j = nth_error st j)
+      /\ (forall X (enc : fmt N -> X -> res N) sm st name (x : X) st',
+         set_custom_with N enc sm st name x = Ok st' ->
+         exists i, get_index sm name = Some i /\ List.length st' = List.length st
+                   /\ forall j, j <> i -> nth_error st' j = nth_error st j)
+      /\ (forall sm (s : entries) st st' name i name',
+         SAbs sm s -> get_index sm name = Some i -> name' <> name ->
+         (forall j, j <> i -> nth_error st' j = nth_error st j) ->
+         get_state_variable N sm st' name' = get_state_variable N sm st name').
+  Proof.
+    repeat split.
+    - intros U unit_of conv. exact (set_frame N unit_of conv).
+    - intros U unit_of conv. exact (add_frame N unit_of conv).
+    - intros X enc. exact (set_custom_frame N enc).
+    - exact (other_names_unchanged N).
+  Qed.
+
+  Theorem unknown_name_is_error :
+      (* a query override of a name no model declares *)
+      (forall cfg (s0 : entries) tm am (u : entries) (e : string * feature N),
+         SAbs cfg s0 -> NoDup (map fst u) -> In e u -> ~ In (fst e) (map fst (tm ++ am)) ->
+         exists c, build_search_instance cfg tm am (USome u) = Err c
+                   /\ (c = err_unknown \/ mixed_invalid tm am u = true))
+      (* an accessor on a name that is not in the model *)
+      /\ (forall U (unit_of : feature N -> res U) conv X (enc : fmt N -> X -> res N) sm (s : entries) st name u x (cx : X),
+         SAbs sm s -> get_index sm name = None ->
+         get_with N unit_of conv sm st name u = Err err_unknown
+         /\ set_with N unit_of conv sm st name x u = Err err_unknown
+         /\ add_with N unit_of conv sm st name x u = Err err_unknown
+         /\ get_custom_state_variable N sm st name = Err err_unknown
+         /\ set_custom_with N enc sm st name cx = Err err_unknown).
+  Proof.
+    split.
+    - exact unknown_override_refused.
+    - intros U unit_of conv X enc. exact (unknown_name_accessors N unit_of conv enc).
+  Qed.
+
+  Theorem type_mismatch_is_error :
+      (* a query override with another feature type *)
+      (forall cfg (s0 : entries) tm am (u : entries) (e : string * feature N) m,
+         SAbs cfg s0 -> NoDup (map fst u) -> In e u -> SMS.last_def (tm ++ am) (fst e) = Some m ->
+         feature_type m <> feature_type (snd e) ->
+         exists c, build_search_instance cfg tm am (USome u) = Err c
+                   /\ (c = err_type \/ mixed_invalid tm am u = true))
+      (* a definition replacing a definition of another kind *)
+      /\ (forall cfg (s0 : entries) tm am user,
+         SAbs cfg s0 -> NoDup (map fst (user_entries user)) -> user <> UBad ->
+         existsb (SMS.unknown_override tm am) (user_entries user) = false ->
+         existsb (SMS.mistyped_override tm am) (user_entries user) = false ->
+         existsb (SMS.replaces_other_kind SMS.lookup s0) (SMS.model_defs tm am)
+         || existsb (SMS.replaces_other_kind SMS.last_def (tm ++ am)) (user_entries user) = true ->
+         build_search_instance cfg tm am user = Err err_build)
+      (* an accessor of one family on a feature of another *)
+      /\ (forall U (unit_of : feature N -> res U) conv sm st name f c u x,
+         get_feature N sm name = Ok f -> unit_of f = Err c ->
+         set_with N unit_of conv sm st name x u = Err c
+         /\ add_with N unit_of conv sm st name x u = Err c
+         /\ (forall v, get_state_variable N sm st name = Ok v -> get_with N unit_of conv sm st name u = Err c)).
+  Proof.
+    repeat split.
+    - exact mistyped_override_refused.
+    - exact other_kind_refused.
+    - exact (proj1 (wrong_family_accessors N unit_of conv sm st name f c u x H H0)).
+    - exact (proj1 (proj2 (wrong_family_accessors N unit_of conv sm st name f c u x H H0))).
+    - exact (proj2 (proj2 (wrong_family_accessors N unit_of conv sm st name f c u x H H0))).
+  Qed.
+End C11State.
+
+(* ---- reading back what was written, exact rationals ---- *)
+Local Open Scope Q_scope.
+(* set in unit u then get in unit u: y = x converted to the feature's unit fu and back = x * k(u,fu) * k(fu,u);
+   within C09's round-trip bound of x (0.1 %), and exactly x when u = fu *)
+Theorem get_set_roundtrip :
+    (forall (sm : smodel QN) st name (x : Q) u st',
+       set_distance QN sm st name x u = Ok st' ->
+       exists f fu y, get_feature QN sm name = Ok f /\ get_distance_unit QN f = Ok fu
+         /\ get_distance QN sm st' name u = Ok y /\ y = convert_distance QN fu u (convert_distance QN u fu x)
+         /\ y == x * k_dist u fu * k_dist fu u /\ Qabs (y - x) <= UnitsRun.tol * Qabs x /\ (u = fu -> y == x))
+    /\ (forall (sm : smodel QN) st name (x : Q) u st',
+       set_time QN sm st name x u = Ok st' ->
+       exists f fu y, get_feature QN sm name = Ok f /\ get_time_unit QN f = Ok fu
+         /\ get_time QN sm st' name u = Ok y /\ y = convert_time QN fu u (convert_time QN u fu x)
+         /\ y == x * k_time u fu * k_time fu u /\ Qabs (y - x) <= UnitsRun.tol * Qabs x /\ (u = fu -> y == x))
+    /\ (forall (sm : smodel QN) st name (x : Q) u st',
+       set_energy QN sm st name x u = Ok st' ->
+       exists f fu y, get_feature QN sm name = Ok f /\ get_energy_unit QN f = Ok fu
+         /\ get_energy QN sm st' name u = Ok y /\ y = convert_energy QN fu u (convert_energy QN u fu x)
+         /\ y == x * k_energy u fu * k_energy fu u /\ Qabs (y - x) <= UnitsRun.tol * Qabs x /\ (u = fu -> y == x)).
+Proof.
+  split; [exact get_set_roundtrip_distance|]. split; [exact get_set_roundtrip_time | exact get_set_roundtrip_energy].
+Qed.
+
+(* add in unit u: the reading in unit u grows by the increment converted to the feature's unit and back *)
+Theorem get_after_add :
+    (forall (sm : smodel QN) st name (dx : Q) u st' y0,
+       add_distance QN sm st name dx u = Ok st' -> get_distance QN sm st name u = Ok y0 ->
+       exists fu y1, get_distance QN sm st' name u = Ok y1
+         /\ y1 == y0 + dx * k_dist u fu * k_dist fu u
+         /\ Qabs (y1 - (y0 + dx)) <= UnitsRun.tol * Qabs dx /\ (u = fu -> y1 == y0 + dx))
+    /\ (forall (sm : smodel QN) st name (dx : Q) u st' y0,
+       add_time QN sm st name dx u = Ok st' -> get_time QN sm st name u = Ok y0 ->
+       exists fu y1, get_time QN sm st' name u = Ok y1
+         /\ y1 == y0 + dx * k_time u fu * k_time fu u
+         /\ Qabs (y1 - (y0 + dx)) <= UnitsRun.tol * Qabs dx /\ (u = fu -> y1 == y0 + dx))
+    /\ (forall (sm : smodel QN) st name (dx : Q) u st' y0,
+       add_energy QN sm st name dx u = Ok st' -> get_energy QN sm st name u = Ok y0 ->
+       exists fu y1, get_energy QN sm st' name u = Ok y1
+         /\ y1 == y0 + dx * k_energy u fu * k_energy fu u
+         /\ Qabs (y1 - (y0 + dx)) <= UnitsRun.tol * Qabs dx /\ (u = fu -> y1 == y0 + dx)).
+Proof.
+  split; [exact get_after_add_distance|]. split; [exact get_after_add_time | exact get_after_add_energy].
+Qed.
+
+(* the custom codecs return what was stored (integers within the range of their Rust type) *)
+Theorem custom_get_set_roundtrip : forall (sm : smodel QN) (st : list QN) name st',
+    (forall x : Q, set_custom_f64 QN sm st name x = Ok st' -> get_custom_f64 QN sm st' name = Ok x)
+    /\ (forall z, (i64_min <= z <= i64_max)%Z ->
+                  set_custom_i64 QN sm st name z = Ok st' -> get_custom_i64 QN trunc_Q sm st' name = Ok z)
+    /\ (forall z, (0 <= z <= u64_max)%Z ->
+                  set_custom_u64 QN sm st name z = Ok st' -> get_custom_u64 QN trunc_Q sm st' name = Ok z)
+    /\ (forall b, set_custom_bool QN sm st name b = Ok st' -> get_custom_bool QN sm st' name = Ok b).
+Proof. exact custom_roundtrip. Qed.
+Local Close Scope Q_scope.
+
+(* statement pins *)
+Check slots_bijective : forall (N : Num) (cfg : smodel N) (s0 tm am : list (string * feature N)) (user : user_q N) (sm : smodel N),
+    SAbs cfg s0 -> NoDup (map fst (user_entries user)) -> build_search_instance cfg tm am user = Ok sm ->
+    (forall k, get_index sm k = SMS.position (SMS.final_names s0 tm am) k)
+    /\ len sm = List.length (SMS.final_names s0 tm am)
+    /\ NoDup (SMS.final_names s0 tm am)
+    /\ (forall k i, get_index sm k = Some i -> i < len sm)
+    /\ (forall k1 k2 i, get_index sm k1 = Some i -> get_index sm k2 = Some i -> k1 = k2)
+    /\ (forall i, i < len sm -> exists k, get_index sm k = Some i)
+    /\ (forall k, get_index sm k <> None <-> In k (map fst s0) \/ In k (map fst tm) \/ In k (map fst am))
+    /\ (forall k i, get_index cfg k = Some i -> get_index sm k = Some i).
+Check initial_state_length_and_values : forall (N : Num) (cfg : smodel N) (s0 tm am : list (string * feature N)) (user : user_q N) (sm : smodel N),
+    SAbs cfg s0 -> NoDup (map fst (user_entries user)) -> build_search_instance cfg tm am user = Ok sm ->
+    exists st, initial_state N sm = Ok st /\ List.length st = len sm
+      /\ (forall k i, get_index sm k = Some i ->
+            exists f, SMS.final_feature s0 tm am (user_entries user) k = Some f
+                      /\ nth_error st i = Some (SMS.initial_value N f)).
+
+(* ---- non-vacuity: 3 configured features, 3 from the traversal model (one of them re-declaring a configured
+   one in another unit), 2 from the access model (one of them declared by the traversal model too), and a query
+   that overrides two model-contributed features: 7 features, an NEntries container ---- *)
+Section Example7State.
+  Local Open Scope string_scope.
+  Local Open Scope Q_scope.
+  Definition ex_cfg : list (string * feature QN) :=
+    [("distance", FDistance Kilometers 0); ("time", FTime Minutes 0); ("energy_electric", FEnergy KilowattHours 0)].
+  Definition ex_tm : list (string * feature QN) :=
+    [("trip_distance", FDistance Miles 0); ("battery_state", FCustom "soc" "percent" (FFloat 100));
+     ("time", FTime Seconds 30)].
+  Definition ex_am : list (string * feature QN) :=
+    [("trip_time", FTime Seconds 0); ("battery_state", FCustom "soc" "percent" (FFloat 90)); ("stops", FCustom "count" "items" (FSigned 3))].
+  Definition ex_user : list (string * feature QN) :=
+    [("battery_state", FCustom "soc" "percent" (FFloat 55)); ("trip_time", FTime Hours 2)].
+
+  Example ex7_hypotheses : SAbs (new ex_cfg) ex_cfg /\ NoDup (map fst (user_entries (USome ex_user))).
+  Proof.
+    split.
+    - apply (abs_new String.eqb String.eqb_spec). cbn. repeat constructor; cbn; intuition discriminate.
+    - cbn. repeat constructor; cbn; intuition discriminate.
+  Qed.
+
+  Example ex7_state_model :
+    exists sm m, build_search_instance (new ex_cfg) ex_tm ex_am (USome ex_user) = Ok sm
+      /\ sm = CM.NE m /\ len sm = 7%nat
+      /\ get_names sm = ["distance"; "time"; "energy_electric"; "trip_distance"; "battery_state"; "trip_time"; "stops"]
+      /\ get_index sm "battery_state" = Some 4%nat /\ get_index sm "trip_time" = Some 5%nat
+      /\ get_index sm "time" = Some 1%nat
+      /\ initial_state QN sm = Ok [0; 30; 0; 0; 55; 2; 3].
+  Proof. eexists. eexists. split; [vm_compute; reflexivity|]. repeat split. Qed.
+
+  (* the same through the theorems *)
+  Example ex7_by_theorem :
+    forall sm, build_search_instance (new ex_cfg) ex_tm ex_am (USome ex_user) = Ok sm ->
+      get_index sm "battery_state" = Some 4%nat
+      /\ exists st, initial_state QN sm = Ok st /\ nth_error st 4 = Some 55.
+  Proof.
+    intros sm H. destruct ex7_hypotheses as [Ha Hn].
+    destruct (slots_bijective QN _ _ _ _ _ _ Ha Hn H) as (Hi & _).
+    destruct (initial_state_length_and_values QN _ _ _ _ _ _ Ha Hn H) as (st & Hst & _ & Hv).
+    split; [rewrite Hi; reflexivity|]. exists st. split; [exact Hst|].
+    destruct (Hv "battery_state" 4%nat) as (f & Hf & Hn4); [rewrite Hi; reflexivity|].
+    vm_compute in Hf. injection Hf as <-. exact Hn4.
+  Qed.
+
+  (* round trip on that model: 10 miles written to a feature kept in kilometres reads back as
+     10 * 1.60934 * 0.6215040398 miles *)
+  Example ex7_roundtrip :
+    exists sm st st', build_search_instance (new ex_cfg) ex_tm ex_am (USome ex_user) = Ok sm
+      /\ initial_state QN sm = Ok st
+      /\ set_distance QN sm st "distance" 10 Miles = Ok st'
+      /\ get_distance QN sm st' "distance" Miles = Ok (convert_distance QN Kilometers Miles (convert_distance QN Miles Kilometers 10))
+      /\ nth_error st' 4 = Some 55.
+  Proof. eexists. eexists. eexists. repeat split; vm_compute; reflexivity. Qed.
+
+  (* refusals are reachable too *)
+  Example ex7_refused :
+    build_search_instance (new ex_cfg) ex_tm ex_am (USome [("ghost", FTime Hours 2)]) = Err err_unknown
+    /\ build_search_instance (new ex_cfg) ex_tm ex_am (USome [("trip_time", FDistance Miles 2)]) = Err err_type
+    /\ build_search_instance (new ex_cfg) ex_tm ex_am (USome [("trip_time", FCustom "time" "s" (FFloat 2))]) = Err err_build
+    /\ build_search_instance (new ex_cfg) ex_tm ex_am (USome [("distance", FDistance Miles 2)]) = Err err_unknown.
+  Proof. repeat split; vm_compute; reflexivity. Qed.
+End Example7State.
+
+Print Assumptions c11_configured_model.
+Print Assumptions c11_build_refines.
+Print Assumptions slots_bijective.
+Print Assumptions initial_state_length_and_values.
+Print Assumptions override_keeps_slot.
+Print Assumptions set_touches_own_slot.
+Print Assumptions unknown_name_is_error.
+Print Assumptions type_mismatch_is_error.
+Print Assumptions get_set_roundtrip.
+Print Assumptions get_after_add.
+Print Assumptions custom_get_set_roundtrip.
+Print Assumptions ex7_hypotheses.
+Print Assumptions ex7_state_model.
+Print Assumptions ex7_by_theorem.
+Print Assumptions ex7_roundtrip.
+Print Assumptions ex7_refused.
